@@ -22,15 +22,15 @@ import (
 type c10 struct{}
 
 type c10Case struct {
-	U       rig.UniverseSpec `json:"universe"`
-	Mode    string           `json:"mode"` // "invalid" | "errors"
-	Op      gen.Op           `json:"op"`
-	Mutator string           `json:"mutator,omitempty"`
-	FaultAt int              `json:"fault_at"`
-	Pos     int              `json:"pos"` // element position inside the downstream batch (-2: last)
-	Errs    []map[string]any `json:"errors,omitempty"`
-	WithData bool            `json:"with_data"`
-	Second  bool             `json:"second_failing_element"`
+	U        rig.UniverseSpec `json:"universe"`
+	Mode     string           `json:"mode"` // "invalid" | "errors"
+	Op       gen.Op           `json:"op"`
+	Mutator  string           `json:"mutator,omitempty"`
+	FaultAt  int              `json:"fault_at"`
+	Pos      int              `json:"pos"` // element position inside the downstream batch (-2: last)
+	Errs     []map[string]any `json:"errors,omitempty"`
+	WithData bool             `json:"with_data"`
+	Second   bool             `json:"second_failing_element"`
 }
 
 func (c10) ID() string            { return "C10" }
